@@ -1033,8 +1033,6 @@ func execute(c Case, fresh bool) (res result, err error) {
 	}
 
 	// ---- Close
-	a0 := fn.tap.Accepted()
-	_ = a0
 	obs.mark(markCloseCall)
 	closed := make(chan error, 1)
 	hbClose := starve.Begin()
